@@ -96,7 +96,7 @@ func (p *c16) Gen(seed uint64, i int, tier string) (any, bool) {
 		// call on the Client (it has to say hello itself), the server refuses the credentials
 		// (or not), and the caller tries again on the same Client with another password
 		sc := &C16Scenario{Script: "direct", Sched: sim.Derive(seed, 16, uint64(i), 1), Direct: "auth-first-retry"}
-		sc.Client = ClientCfg{User: genSecret(r, "U"), Pass: genSecret(r, "P"), AuthType: sim.Pick(r, []string{"PLAIN", "LOGIN", "CRAM-MD5", "SCRAM-SHA-256"}), Logger: sim.Pick(r, []string{"capture", "std", "json"})}
+		sc.Client = ClientCfg{User: genSecret(r, "U"), Pass: genSecret(r, "P"), AuthType: sim.Pick(r, []string{"PLAIN", "LOGIN", "CRAM-MD5", "SCRAM-SHA-256", "PANIC"}), Logger: sim.Pick(r, []string{"capture", "std", "json"})}
 		sc.Server.Caps = []string{"8BITMIME", authCaps(allMechs...)}
 		if r.Chance(1, 3) {
 			// a server that announces no AUTH line (or speaks HELO only); the caller
@@ -105,7 +105,7 @@ func (p *c16) Gen(seed uint64, i int, tier string) (any, bool) {
 			sc.Server.NoEHLO = r.Chance(1, 3)
 		}
 		sc.Server.Auth = refsmtpd.AuthCfg{User: sc.Client.User, Pass: sc.Client.Pass, Salt: r.Bytes(12), Iter: 4, NonceSuffix: "SrvC16"}
-		if r.Chance(2, 3) {
+		if r.Chance(1, 2) {
 			sc.Server.Auth.Pass = genSecret(r, "X") // the first attempt is refused
 		}
 		if r.Chance(1, 2) {
@@ -542,10 +542,24 @@ func (p *c16) execLateDebug(t *testing.T, sc *C16Scenario) Outcome {
 				c.SetDebugLog(true)
 				toggledAt = 0
 				authFrom = k.Steps
-				authErr = c.Auth(mk(sc.Client.Pass)) // no Hello before: Auth says hello itself
-				if authErr != nil {
-					// the caller tries again on the same Client (whatever state the failed
-					// attempt left the connection in) with another password
+				if sc.Client.AuthType == "PANIC" {
+					// a mechanism of the caller's own that falls over in the middle of the
+					// exchange; the caller recovers and goes on using the connection
+					func() {
+						defer func() {
+							if r := recover(); r != nil {
+								authErr = fmt.Errorf("mechanism panicked: %v", r)
+							}
+						}()
+						authErr = c.Auth(&panicAuth{user: sc.Client.User, pass: sc.Client.Pass})
+					}()
+				} else {
+					authErr = c.Auth(mk(sc.Client.Pass)) // no Hello before: Auth says hello itself
+				}
+				if sc.Client.AuthType != "PANIC" && (authErr != nil || sc.Sched%2 == 0) {
+					// the caller authenticates again on the same Client — after a refusal (whatever
+					// state that left the connection in), or after a success (another account) —
+					// with another password
 					secondPass = sc.Client.Pass + "-2nd" + sc.Client.User[:4]
 					_ = c.Auth(mk(secondPass))
 				}
@@ -660,4 +674,16 @@ func (p *c16) execLateDebug(t *testing.T, sc *C16Scenario) Outcome {
 	out.Key = fmt.Sprintf("%s|%s|%s|%d|%v|%v", mode+"|"+when, sc.Client.AuthType, sc.Client.Logger, sc.ToggleAfter, authErr == nil, secondPass != "")
 	out.Nontrivial = true
 	return out
+}
+
+// panicAuth sends its credentials with the AUTH command (like PLAIN) and panics when asked for
+// the next step.
+type panicAuth struct{ user, pass string }
+
+func (a *panicAuth) Start(*smtp.ServerInfo) (string, []byte, error) {
+	return "LOGIN", []byte(a.user), nil
+}
+
+func (a *panicAuth) Next([]byte, bool) ([]byte, error) {
+	panic("the caller's own mechanism fell over (" + a.pass[:1] + "...)")
 }
